@@ -29,6 +29,7 @@ Payload-dependent values stay TOP.  Nothing here is ever given payload bytes.
 from .fold import (Folder, TOP, UNIT, INT_BITS, mk_int, mk_bool, _Abort, _State, Result, MODELLED, _has_top)
 
 NONE = ("adt", "std::option::Option", 0, "None", ())
+SYMK = ("sbyte", "sbits", "sbit", "tagint")
 
 
 def some(v):
@@ -308,6 +309,100 @@ class PEval(Folder):
                 cur_proj.append(e)
         return ("ref", ("place", cur_f, cur_l, tuple(cur_proj)))
 
+    # ------------------------------------------------- symbolic payload bits
+    # A payload byte vector may be given as ("symvec",): its bytes are ("sbyte", j).  The only operations the
+    # placement code applies to them are `byte & (1 << k)` and `!= 0`, giving ("sbit", j, k, negated).  A module whose
+    # value bit is such a symbol is an integer ("tagint", ty, base, tag) with bit 0 symbolic and the other bits known.
+    def _binop(self, st, op, a, b):
+        ka = a[0] if a != TOP else None
+        kb = b[0] if b != TOP else None
+        if ka in SYMK or kb in SYMK:
+            return self._sym_binop(op, a, b)
+        return super()._binop(st, op, a, b)
+
+    def _sym_binop(self, op, a, b):
+        if a != TOP and a[0] == "int" and b != TOP and b[0] in SYMK and op in ("BitAnd", "BitOr", "BitXor", "Eq", "Ne"):
+            a, b = b, a
+        if a == TOP or b == TOP or b[0] != "int":
+            return TOP
+        y = b[2]
+        if a[0] == "sbyte":
+            if op == "BitAnd" and y > 0 and y & (y - 1) == 0 and y < 256:
+                return ("sbits", a[1], y.bit_length() - 1)
+            return TOP
+        if a[0] == "sbits":
+            if op == "Ne" and y == 0:
+                return ("sbit", a[1], a[2], False)
+            if op == "Eq" and y == 0:
+                return ("sbit", a[1], a[2], True)
+            return TOP
+        if a[0] == "tagint":
+            _, ty, base, tag = a
+            if op == "Shr" and y >= 1:
+                return mk_int(ty, base >> y)
+            if op == "BitAnd":
+                if y & 1:
+                    return ("tagint", ty, base & y, tag)
+                return mk_int(ty, base & y)
+            if op == "BitOr":
+                if y & 1:
+                    return mk_int(ty, base | y)
+                return ("tagint", ty, base | y, tag)
+            if op == "BitXor":
+                nb = (base ^ y) & ~1
+                return ("tagint", ty, nb, (tag[0], tag[1], tag[2] ^ bool(y & 1)))
+            if op in ("Eq", "Ne") and base == 0 and y in (0, 1):
+                neg = tag[2] ^ (op == "Ne") ^ (y == 0)
+                return ("sbit", tag[0], tag[1], neg)
+            return TOP
+        return TOP
+
+    def _split_on_sbit(self, st, name, callee, args, t):
+        """callee(&mut small, sbit): evaluate both truth values on a scratch copy of the pointee and merge the two
+        results when they differ in bit 0 only (tagging bit 0 with the symbol)"""
+        ref_i = [i for i, a in enumerate(args) if a != TOP and a[0] == "ref" and a[1][0] == "place"]
+        sb_i = [i for i, a in enumerate(args) if a != TOP and a[0] == "sbit"]
+        if len(ref_i) != 1 or len(sb_i) != 1 or len(args) != 2:
+            raise _Abort("top", "symbolic boolean passed to %s" % name)
+        ptr = args[ref_i[0]][1]
+        cur = self._load_ptr(st, ptr)
+        bits = module_bits(cur)
+        tag0 = None
+        if bits is None and cur != TOP and cur[0] == "adt" and cur[4] and cur[4][0] != TOP and cur[4][0][0] == "tagint":
+            bits = cur[4][0][2]
+            tag0 = cur[4][0][3]
+        if bits is None:
+            raise _Abort("top", "symbolic boolean passed to %s with an unknown pointee" % name)
+        key = ("split", name, bits, ref_i[0])
+        if key not in self.memo:
+            outs = []
+            for val in (False, True):
+                sub = PEval(self.facts, max_steps=10000)
+                a2 = [None, None]
+                a2[ref_i[0]] = ("cell", 0)
+                a2[sb_i[0]] = mk_bool(val)
+                m = cur[:4] + ((mk_int("u8", bits),),)
+                r = sub.run(name, a2, cells=[m])
+                outs.append(module_bits(r.cells[0]) if r.kind == "ret" else None)
+            self.memo[key] = tuple(outs)
+        b0, b1 = self.memo[key]
+        if b0 is None or b1 is None:
+            raise _Abort("top", "%s does not fold on a concrete module" % name)
+        sb = args[sb_i[0]]
+        tag = (sb[1], sb[2], sb[3])
+        _ = tag0  # the previous symbolic value is overwritten only if the callee ignores it: both results are concrete
+        if b0 == b1:
+            new = mk_int("u8", b0)
+        elif b1 == (b0 | 1) and b0 & 1 == 0:
+            new = ("tagint", "u8", b0, tag)
+        elif b0 == (b1 | 1) and b1 & 1 == 0:
+            new = ("tagint", "u8", b1, (tag[0], tag[1], not tag[2]))
+        else:
+            raise _Abort("top", "%s changes more than the value bit" % name)
+        self.store_ptr(st, ptr, cur[:4] + ((new,),))
+        self._store(st, len(st.frames) - 1, t["dest"], UNIT)
+        self._enter_block(st, t["target"])
+
     # ------------------------------------------------------------------- calls
     def _call(self, st, t):
         name = t.get("callee") or t.get("declared")
@@ -316,6 +411,12 @@ class PEval(Folder):
         fidx = len(st.frames) - 1
         if t.get("target") is None:
             raise _Abort("diverge", "diverging call to %s at %s:%s" % (name, t.get("file"), t.get("line")))
+        if any(a != TOP and a[0] == "sbit" for a in args):
+            callee = self.facts.fn(name) if name else None
+            if callee is None:
+                raise _Abort("top", "symbolic boolean passed to %s" % name)
+            self._split_on_sbit(st, name, callee, args, t)
+            return
         if name in PMODELS:
             v = PMODELS[name](self, st, args, t)
             self._store(st, fidx, t["dest"], v)
@@ -419,6 +520,10 @@ def _as_iter(pe, st, v):
 def _into_iter(pe, st, args, t):
     it = _as_iter(pe, st, args[0])
     if it is None:
+        v = args[0]
+        name = t.get("callee") or ""
+        if v != TOP and v[0] == "adt" and name.startswith("<I as "):
+            return v  # blanket impl: an Iterator is its own IntoIterator (crate iterator types)
         raise _Abort("top", "iterator over an unknown sequence at %s:%s" % (t.get("file"), t.get("line")))
     return it
 
@@ -580,6 +685,19 @@ def _add_ref(pe, st, args, t):
     return mk_int("usize", r)
 
 
+@pmodel("<std::vec::Vec<T, A> as std::ops::Index<I>>::index")
+def _vec_index(pe, st, args, t):
+    v = _deref(pe, st, args[0])
+    i = args[1]
+    if v != TOP and v[0] == "symvec" and i != TOP and i[0] == "int":
+        return ("ref", ("const", ("sbyte", i[2])))
+    if v != TOP and v[0] == "array" and i != TOP and i[0] == "int":
+        if not 0 <= i[2] < len(v[1]):
+            raise _Abort("diverge", "index out of range")
+        return ("ref", ("const", v[1][i[2]]))
+    raise _Abort("top", "Vec index on an unknown vector")
+
+
 # --------------------------------------------------------------------------
 # helpers for rules
 # --------------------------------------------------------------------------
@@ -594,6 +712,25 @@ def module_bits(v):
         return None
     x = v[4][0]
     return x[2] if x != TOP and x[0] == "int" else None
+
+
+def matrix_sym(pe, qr_val):
+    """like matrix_of, but cells are (byte, None) or (byte with bit 0 cleared, (j, k, negated))"""
+    if qr_val == TOP or qr_val[0] != "adt":
+        return None
+    data, size = qr_val[4][0], qr_val[4][1]
+    if data == TOP or data[0] != "harr" or size == TOP:
+        return None
+    n, d, cells = pe.heap.arrs[data[1]]
+
+    def conv(v):
+        b = module_bits(v)
+        if b is not None:
+            return (b, None)
+        if v != TOP and v[0] == "adt" and v[4] and v[4][0] != TOP and v[4][0][0] == "tagint":
+            return (v[4][0][2], v[4][0][3])
+        return (None, None)
+    return size[2], {i: conv(v) for i, v in cells.items()}, conv(d), n
 
 
 def matrix_of(pe, qr_val):
